@@ -178,20 +178,20 @@ class MerkleCache(object):
 
     async def _extend_to(self, length):
         '''Extend the length of the cache if necessary.'''
-        if length <= self.length:
-            return
-        while True:
+        while length > self.length:
             truncations = self.truncations
+            cached_length = self.length
             # Start from the beginning of any final partial segment.
             # Retain the value of depth_higher; in practice this is fine
-            start = self._leaf_start(self.length)
+            start = self._leaf_start(cached_length)
             hashes = await self.source_func(start, length - start)
-            # A truncation (chain reorganisation) whilst waiting for the hashes means they
-            # may be stale and that self.length was not reduced because it was still short
-            if truncations == self.truncations:
-                break
-        self.level[start >> self.depth_higher:] = self._level(hashes)
-        self.length = length
+            # Use the hashes only if the cache is as it was when they were requested.  A
+            # truncation (chain reorganisation) whilst waiting means they may be stale and
+            # that self.length was not reduced because it was still short; another extension
+            # finishing whilst waiting means they may not reach the end of the cache.
+            if truncations == self.truncations and cached_length == self.length:
+                self.level[start >> self.depth_higher:] = self._level(hashes)
+                self.length = length
 
     async def _level_for(self, length):
         '''Return a (level_length, final_hash) pair for a truncation
